@@ -90,6 +90,40 @@ Proof.
   - exists (qu - qd). rewrite D4, U4. lia.
 Qed.
 
+(* more fuel never changes the result: the fuel-bounded recursion is the while loop *)
+Lemma wrap_up_fuel_indep (f1 f2 : nat) (n : Z) :
+  NOTE_LOWER_BOUND - n <= 12 * Z.of_nat f1 -> NOTE_LOWER_BOUND - n <= 12 * Z.of_nat f2 ->
+  wrap_up f1 n = wrap_up f2 n.
+Proof.
+  intros H1 H2.
+  destruct (wrap_up_spec f1 n H1) as (A1 & A2 & A3 & q1 & Hq1 & A4).
+  destruct (wrap_up_spec f2 n H2) as (B1 & B2 & B3 & q2 & Hq2 & B4).
+  unfold NOTE_LOWER_BOUND in *.
+  destruct (Z_lt_ge_dec n 21) as [Hlt|Hge]; [specialize (A2 Hlt); specialize (B2 Hlt); lia|].
+  rewrite A3, B3 by lia. reflexivity.
+Qed.
+Lemma wrap_down_fuel_indep (f1 f2 : nat) (n : Z) :
+  n - NOTE_UPPER_BOUND <= 12 * Z.of_nat f1 -> n - NOTE_UPPER_BOUND <= 12 * Z.of_nat f2 ->
+  wrap_down f1 n = wrap_down f2 n.
+Proof.
+  intros H1 H2.
+  destruct (wrap_down_spec f1 n H1) as (A1 & A2 & A3 & q1 & Hq1 & A4).
+  destruct (wrap_down_spec f2 n H2) as (B1 & B2 & B3 & q2 & Hq2 & B4).
+  unfold NOTE_UPPER_BOUND in *.
+  destruct (Z_lt_ge_dec 108 n) as [Hlt|Hge]; [specialize (A2 Hlt); specialize (B2 Hlt); lia|].
+  rewrite A3, B3 by lia. reflexivity.
+Qed.
+Lemma C14_wrap_fuel (n : Z) (f : nat) : (wrap_fuel n <= f)%nat -> wrap_down f (wrap_up f n) = wrap n.
+Proof.
+  intros Hf. pose proof (wrap_fuel_enough n) as He. unfold wrap.
+  assert (Hu : wrap_up f n = wrap_up (wrap_fuel n) n).
+  { apply wrap_up_fuel_indep; unfold NOTE_LOWER_BOUND; lia. }
+  rewrite Hu.
+  destruct (wrap_up_spec (wrap_fuel n) n) as (U1 & U2 & U3 & _); [unfold NOTE_LOWER_BOUND; lia|].
+  apply wrap_down_fuel_indep; unfold NOTE_UPPER_BOUND, NOTE_LOWER_BOUND in *;
+    (destruct (Z_lt_ge_dec n 21) as [Hlt|Hge]; [specialize (U2 Hlt); lia|rewrite U3 by lia; lia]).
+Qed.
+
 Lemma C14_wrap_range (n : Z) :
   NOTE_LOWER_BOUND <= wrap n <= NOTE_UPPER_BOUND /\ (wrap n - n) mod 12 = 0.
 Proof.
